@@ -100,7 +100,7 @@ def evaluate(item, d, props_filter):
     lines = r.stdout.split("\n")
     keys = [l.strip().split(" @ ")[0] for l in lines if l.startswith("  R") and " @ " in l]
     und = [l.strip()[len("UNDECIDED "):].split(": ")[0] for l in lines if l.startswith("  UNDECIDED")]
-    err = [l for l in lines if l.startswith("ERROR") or "Traceback" in l]
+    err = [l for l in lines if l.startswith("ERROR") or "Traceback" in l or l.startswith("RULE-CRASH")]
     return sid, kind, {"rc": r.returncode, "violations": keys, "undecided": und, "errors": err, "out": r.stdout}
 
 
